@@ -626,11 +626,16 @@ func (w *walker) structNode(s reflect.Value, sch *yang.Entry, base string) {
 				v  reflect.Value
 			}
 			var ents []ent
-			iter := f.MapRange()
-			for iter.Next() {
-				kv := MapKeyStrings(iter.Key(), names)
+			// keys are visited in an order fixed by their raw content: rendering a key calls
+			// generated methods (ΛMap of an enumeration), which are yield points in the race
+			// build, so the order of the visit is part of the schedule and must not be Go's
+			// random map order
+			mkeys := f.MapKeys()
+			sort.SliceStable(mkeys, func(a, b int) bool { return rawCanon(mkeys[a]) < rawCanon(mkeys[b]) })
+			for _, mk := range mkeys {
+				kv := MapKeyStrings(mk, names)
 				ks := FormatKeys(kv)
-				ev := iter.Value()
+				ev := f.MapIndex(mk)
 				if ev.IsNil() {
 					w.problem("%s%s: nil list entry", p, ks)
 					continue
@@ -787,6 +792,48 @@ func dynType(f reflect.Value) string {
 		return f.Elem().Type().String()
 	}
 	return f.Type().String()
+}
+
+// rawCanon renders a value from its raw content only (no method of the value's type is
+// called), for ordering map keys deterministically.
+func rawCanon(v reflect.Value) string {
+	switch v.Kind() {
+	case reflect.Invalid:
+		return "<invalid>"
+	case reflect.Ptr:
+		if v.IsNil() {
+			return "<nil>"
+		}
+		return "&" + rawCanon(v.Elem())
+	case reflect.Interface:
+		if v.IsNil() {
+			return "<nil>"
+		}
+		return v.Elem().Type().String() + ":" + rawCanon(v.Elem())
+	case reflect.Struct:
+		parts := make([]string, v.NumField())
+		for i := range parts {
+			parts[i] = rawCanon(v.Field(i))
+		}
+		return "{" + strings.Join(parts, ",") + "}"
+	case reflect.Slice, reflect.Array:
+		parts := make([]string, v.Len())
+		for i := range parts {
+			parts[i] = rawCanon(v.Index(i))
+		}
+		return "[" + strings.Join(parts, ",") + "]"
+	case reflect.String:
+		return strconv.Quote(v.String())
+	case reflect.Bool:
+		return strconv.FormatBool(v.Bool())
+	case reflect.Int, reflect.Int8, reflect.Int16, reflect.Int32, reflect.Int64:
+		return fmt.Sprintf("%020d", uint64(v.Int())^(1<<63))
+	case reflect.Uint, reflect.Uint8, reflect.Uint16, reflect.Uint32, reflect.Uint64:
+		return fmt.Sprintf("%020d", v.Uint())
+	case reflect.Float32, reflect.Float64:
+		return strconv.FormatFloat(v.Float(), 'g', -1, 64)
+	}
+	return v.Kind().String()
 }
 
 // ---------------------------------------------------------------------------
